@@ -39,7 +39,7 @@ func (c *validatorListConstructor) buildList(node schema.Node) {
 		c.appendTypeValidators(names)
 
 		if constr := node.Constraint(constraint.NullableConstraintType); constr != nil {
-			c.list = append(c.list, newLiteralValidator(node, c.parent))
+			c.list = append(c.list, newNullValidator(node, c.parent))
 		}
 	} else {
 		c.appendNodeValidators(node)
@@ -85,6 +85,6 @@ func (c *validatorListConstructor) appendNodeValidators(node schema.Node) {
 	if t := node.Type(); (t == json.TypeArray || t == json.TypeObject) &&
 		node.Constraint(constraint.AnyConstraintType) == nil &&
 		node.Constraint(constraint.NullableConstraintType) != nil {
-		c.list = append(c.list, newLiteralValidator(node, c.parent))
+		c.list = append(c.list, newNullValidator(node, c.parent))
 	}
 }
